@@ -590,6 +590,53 @@ pub fn preprocess(
 }
 
 /// Visit all files used during compilation.
+// A (mod ...) form inside an expression is a program of its own with its own
+// include forms; the files it reads belong to the compilation all the same.
+fn collect_nested_mod_includes(includes: &mut Vec<IncludeDesc>, body: &BodyForm) {
+    match body {
+        BodyForm::Let(_, letdata) => {
+            for b in letdata.bindings.iter() {
+                collect_nested_mod_includes(includes, b.body.borrow());
+            }
+            collect_nested_mod_includes(includes, letdata.body.borrow());
+        }
+        BodyForm::Call(_, args, tail) => {
+            for a in args.iter() {
+                collect_nested_mod_includes(includes, a.borrow());
+            }
+            if let Some(t) = tail {
+                collect_nested_mod_includes(includes, t.borrow());
+            }
+        }
+        BodyForm::Mod(_, program) => {
+            includes.extend(program.include_forms.iter().cloned());
+            collect_program_nested_mod_includes(includes, program);
+        }
+        BodyForm::Lambda(ldata) => {
+            collect_nested_mod_includes(includes, ldata.captures.borrow());
+            collect_nested_mod_includes(includes, ldata.body.borrow());
+        }
+        BodyForm::Quoted(_) | BodyForm::Value(_) => {}
+    }
+}
+
+fn collect_program_nested_mod_includes(includes: &mut Vec<IncludeDesc>, program: &CompileForm) {
+    for h in program.helpers.iter() {
+        match h {
+            HelperForm::Defun(_, defun) => {
+                collect_nested_mod_includes(includes, defun.body.borrow());
+            }
+            HelperForm::Defconstant(defc) => {
+                collect_nested_mod_includes(includes, defc.body.borrow());
+            }
+            HelperForm::Defmacro(mac) => {
+                collect_program_nested_mod_includes(includes, mac.program.borrow());
+            }
+        }
+    }
+    collect_nested_mod_includes(includes, program.exp.borrow());
+}
+
 /// This reports a list of all files used while compiling the input file, via any
 /// form that causes compilation to include another file.  The file names are path
 /// expanded based on the include path they were found in (from opts).
@@ -620,8 +667,10 @@ pub fn gather_dependencies(
     let parsed = parse_sexp(Srcloc::start(real_input_path), file_content.bytes())?;
     let program = frontend(opts, &parsed)?;
 
-    let filtered_results: Vec<IncludeDesc> = program
-        .include_forms
+    let mut all_includes = program.include_forms.clone();
+    collect_program_nested_mod_includes(&mut all_includes, &program);
+
+    let filtered_results: Vec<IncludeDesc> = all_includes
         .into_iter()
         .filter(|f| !f.name.starts_with(b"*"))
         .collect();
